@@ -399,6 +399,11 @@ func checkC09(c *core.Ctx) {
 		{"write", []string{"write"}, false, 60000},
 		{"write event", []string{"write", "event", "--track", "2"}, false, 60000},
 		{"gen attr", []string{"gen", "attr", "-d"}, false, 100000},
+		// a user dictionary of 100,000 chords (10 MB) / 150,000 attributes, listed
+		{"info chord list", []string{"info", "chord", "list", "--chord"}, false, 100000},
+		{"info attr list", []string{"info", "attr", "list", "--attr"}, false, 150000},
+		// F-47 (known): ONE chord with 40,000 tied values (160 KB of text) through text parse
+		{"text parse (one chord)", []string{"text", "parse"}, true, 40000},
 	}
 	memSizes := []struct{ factor, dataKB int }{{1, 1 << 20}}
 	if !c.Quick() {
@@ -422,10 +427,25 @@ func checkC09(c *core.Ctx) {
 			unit = text.String() + "\n"
 		}
 		var in []byte
-		if mc.name != "gen attr" {
-			in = []byte(strings.Repeat(unit, n))
-		} else {
+		switch mc.name {
+		case "gen attr":
 			mc.args = append(append([]string{}, mc.args...), fmt.Sprint(chords))
+		case "info chord list", "info attr list":
+			var b strings.Builder
+			for k := 0; k < chords; k++ {
+				if mc.name == "info chord list" {
+					fmt.Fprintf(&b, "- name: Zmem%06d\n  meta:\n    display: zmem%06d\n  attributes:\n    - Perfect1\n    - Major3\n    - Perfect5\n", k, k)
+				} else {
+					fmt.Fprintf(&b, "- name: Zmem%06d\n  degree: \"%d\"\n", k, 1+k%15)
+				}
+			}
+			unit, n = "(generated dictionary)", chords
+			mc.args = append(append([]string{}, mc.args...), c.Scratch.File(fmt.Sprintf("mem-dict-%d.yml", i), []byte(b.String())))
+		case "text parse (one chord)":
+			unit = "1/2,"
+			in = []byte("C[" + strings.Repeat(unit, chords-1) + "1/2]\n")
+		default:
+			in = []byte(strings.Repeat(unit, n))
 		}
 		res := c.Crd.Run(runner.Opt{Stdin: in, DataKB: sz.dataKB, CPUSec: 600}, mc.args...)
 		det := map[string]any{"unit": unit, "repeated": n, "input_len": len(in), "data_limit_kb": sz.dataKB, "argv": runner.ShellQuote(mc.args)}
